@@ -162,7 +162,9 @@ Boundaries(p) ==
 WithQR(p) == [p EXCEPT ![3] = IF p[3] >= 128 THEN p[3] ELSE p[3] + 128]
 WithQ(p)  == IF QD(p) = 1 THEN p
              ELSE SubSeq(p, 1, 4) \o <<0, 1>> \o SubSeq(p, 7, 12) \o <<0, 0, 1, 0, 1>> \o SubSeq(p, 13, Len(p))
-Structural(p) == Len(p) >= 12 /\ QD(p) <= 1 /\ WellFormed(WithQ(WithQR(p)))
+\* (setting the QR bit changes a header byte: a name written through a pointer into the header would change with it,
+\* so the bytes are tried as they are first)
+Structural(p) == Len(p) >= 12 /\ QD(p) <= 1 /\ (WellFormed(WithQ(p)) \/ WellFormed(WithQ(WithQR(p))))
 \* the two lifted clauses
 PolicyOK(p) == QD(p) = 1 /\ (p[3] >= 128 \/ (U16(p, 6) = 0 /\ U16(p, 8) = 0))
 PointerFreeT(p) == PointerFreePkt(WithQ(WithQR(p)))
